@@ -11,7 +11,7 @@
    Proved: the involution for power-of-two sizes, Remove/Lookup agreement, and the concrete
    murmur3 model's agreement is checked by correspondence. *)
 From GX.Model Require Import Base Murmur Cuckoo.
-From GX.Proofs Require Import ListLemmas CuckooProofs CuckooInv.
+From GX.Proofs Require Import ListLemmas CuckooProofs CuckooInv CuckooLive.
 From Coq Require Import ZArith Permutation.
 
 (* mechanism: alternate bucket computable from (bucket, fingerprint hash) is an involution for
@@ -42,6 +42,40 @@ Theorem C02_insert_stores_and_only_moves : forall h64 f x coin draws fp i1 i2 f'
 Proof.
   intros h64 f x coin draws fp i1 i2 f' Hp Hi.
   pose proof (insert_conserves h64 f x coin draws fp i1 i2 Hp) as H. rewrite Hi in H. exact H.
+Qed.
+
+(* THE PROPERTY in the regime where the two refutations below do not apply - bucket count a power
+   of two, elements with a non-empty fingerprint (fp_ok), non-destructive inserts, only live
+   elements removed (the documented usage), random draws in Float64's range: for every hash,
+   bucket size >= 1, fingerprint length, retry budget and EVERY history of Insert/Remove - with
+   duplicates, evictions that relocate stored entries, failed inserts - every element in the
+   multiset L of elements inserted successfully more often than removed is reported present.
+   (lrun tracks L: +x for an Insert that returned, -x for a Remove that returned true.) *)
+Theorem C02_live_elements_found_pow2 : forall h64 j bsize fpl retries ops,
+  2 ^ j * bsize < two64 -> 1 <= bsize ->
+  let f0 := ck_new (2 ^ j) bsize fpl retries in
+  usage_ok h64 f0 [] ops ->
+  forall x, In x (snd (lrun h64 f0 [] ops)) -> ck_lookup h64 (fst (lrun h64 f0 [] ops)) x = Ok true.
+Proof. exact new_filter_live_elements_found. Qed.
+
+(* the same from any state satisfying the invariant (slot counts + classes of stored entries =
+   classes of the live multiset) *)
+Theorem C02_live_elements_found_inductive : forall h64 j ops f L,
+  LInv h64 j f L -> usage_ok h64 f L ops ->
+  LInv h64 j (fst (lrun h64 f L ops)) (snd (lrun h64 f L ops)) /\
+  forall x, In x (snd (lrun h64 f L ops)) -> ck_lookup h64 (fst (lrun h64 f L ops)) x = Ok true.
+Proof. intros. split; [apply (lrun_inv h64 j); assumption|apply (live_elements_found h64 j); assumption]. Qed.
+
+(* non-vacuity: a history on the murmur3 model (4 buckets of 1 slot, so the third and fourth
+   inserts evict and relocate) meets usage_ok and ends with three live elements *)
+Definition c02_ops : list lop :=
+  [LIns [97] true []; LIns [98] true []; LIns [99] false [0]; LIns [100] true [0; 0];
+   LRem [97]; LIns [97] true [0]; LIns [101] true [0; 0; 0]; LRem [98]].
+Example C02_usage_satisfiable :
+  usage_ok murmur64 (ck_new (2 ^ 2) 1 2 3) [] c02_ops /\
+  snd (lrun murmur64 (ck_new (2 ^ 2) 1 2 3) [] c02_ops) = [[97]; [100]; [99]].
+Proof.
+  split; [apply usage_okb_sound; vm_compute; reflexivity|vm_compute; reflexivity].
 Qed.
 
 (* witness histories on the concrete murmur3 model *)
@@ -87,3 +121,5 @@ Print Assumptions C02_remove_iff_lookup.
 Print Assumptions C02_refuted_non_pow2.
 Print Assumptions C02_refuted_empty_fingerprint.
 Print Assumptions C02_insert_stores_and_only_moves.
+Print Assumptions C02_live_elements_found_pow2.
+Print Assumptions C02_live_elements_found_inductive.
